@@ -112,8 +112,10 @@ def gen_case(seed, tier='quick'):
     ops.append({'op': 'check'})
     # interleaved tail
     n_sets = rng.choice([0, 1, 1, 2, 3, 5])
+    # inputs below the focus, incl. referenced cells that are stored nowhere
+    # yet (setting one creates it)
     closure_inputs = [a for a in sorted(closure_of_focus(world, focus))
-                      if world['level'].get(a, 0) == 0 and a in world['cells']]
+                      if world['level'].get(a, 0) == 0]
     tail = []
     for sid in range(n_sets):
         cands = closure_inputs if closure_inputs and rng.random() < 0.8 \
@@ -140,6 +142,10 @@ def gen_case(seed, tier='quick'):
         seq.append({'op': 'set', 'who': second, 'id': sid, 'target': t,
                     'value': v})
         if rng.random() < 0.7:
+            seq.append({'op': 'check'})
+        if rng.random() < 0.25:
+            # a fresh extraction of the changed original
+            seq.append({'op': 'extract'})
             seq.append({'op': 'check'})
     ops.extend(seq)
     if seq and seq[-1]['op'] != 'check':
